@@ -3,7 +3,6 @@ CONSTANTS
   Threads = {a, b, c}
   MaxCommits = 4
   Serialize = FALSE
-  Callbacks = FALSE
-INVARIANTS TypeOK NeverMovesBack ReloadIsFresh
-PROPERTIES PublishedMonotone
+  Callbacks = TRUE
+INVARIANTS FreshAtRest
 CHECK_DEADLOCK FALSE
